@@ -826,7 +826,7 @@ impl Response {
 
                 buffer_as_u8_array = &buffer;
 
-                let content_range = ContentRange {
+                let mut content_range = ContentRange {
                     unit: Range::BYTES.to_string(),
                     range: Range {
                         start: 0,
@@ -836,6 +836,18 @@ impl Response {
                     body: Vec::from(buffer_as_u8_array),
                     content_type: content_type.to_string()
                 };
+
+                // a single body carries its range in the Content-Range header of the response
+                let boxed_content_range_header = response.get_header(Header::_CONTENT_RANGE.to_string());
+                if boxed_content_range_header.is_some() {
+                    let header_value = boxed_content_range_header.unwrap().value.to_string();
+                    let boxed_range = Range::_parse_content_range_header_value(header_value);
+                    if boxed_range.is_ok() {
+                        let (start, end, size) = boxed_range.unwrap();
+                        content_range.range = Range { start: start as u64, end: end as u64 };
+                        content_range.size = size.to_string();
+                    }
+                }
                 response.content_range_list = vec![content_range];
 
 
